@@ -1595,6 +1595,21 @@ class Interp:
                     names.append(tb if tb is not None else tn)
                 self.fire('is_same-evaluated')
                 return names[0] == names[1]
+            if n in ('std::is_integral<>::value', 'std::is_signed<>::value', 'std::is_unsigned<>::value', 'std::is_floating_point<>::value', 'std::is_arithmetic<>::value') and e.targs:
+                t = e.targs[0]
+                tn = ' '.join(strip_ns(t.name).split()) if isinstance(t, Type) else str(t)
+                tb = self.tbind_lookup(tn)
+                tn = tb if tb is not None else tn
+                tn = {'Eigen::Index': 'long', 'Index_t': 'long', 'std::size_t': 'unsigned long', 'size_t': 'unsigned long', 'std::ptrdiff_t': 'long'}.get(tn, tn)
+                INTS = {'int', 'long', 'long long', 'short', 'char', 'unsigned', 'unsigned int', 'unsigned long', 'unsigned long long', 'bool', 'signed char', 'unsigned char', 'unsigned short'}
+                FLOATS = {'float', 'double', 'long double'}
+                if tn not in INTS | FLOATS:
+                    raise Unsupported('type trait of %s' % tn)
+                self.fire('type-trait-evaluated')
+                what = n.split('<')[0].split('::')[-1]
+                return {'is_integral': tn in INTS, 'is_floating_point': tn in FLOATS, 'is_arithmetic': True,
+                        'is_signed': tn in FLOATS or (tn in INTS and not tn.startswith('unsigned') and tn != 'bool'),
+                        'is_unsigned': tn in INTS and (tn.startswith('unsigned') or tn == 'bool')}[what]
             if n.startswith('std::is_') or n.endswith('<>::value'):
                 raise Unsupported('type trait')
         return self.lookup_name(e.name)
@@ -1640,6 +1655,9 @@ class Interp:
         if e.type.ptr:
             return v
         n = strip_ns(e.type.name)
+        tb = self.tbind_lookup(n) if self.frames else None
+        if tb is not None and isinstance(tb, str) and tb in ('int', 'long', 'unsigned', 'double'):
+            return self.convert(v, Type(tb, None, False, False, 0))
         if n in self.w.enums or n.split('::')[-1] in self.w.enums:
             return self.convert(v, Type('int', None, False, False, 0))
         if n in ('int', 'unsigned', 'long') and is_sym(v) and z3.is_real(v):
@@ -2387,6 +2405,12 @@ class Interp:
         if name == 'segment':
             k = self.const_int(targs[0]) if targs else args[1]
             return SegView(m, args[0], k)
+        if name in ('head', 'tail'):
+            # v.head<K>() / v.head(k): the first K elements of a vector (tail: the last K) as a view
+            k = self.const_int(targs[0]) if targs else args[0]
+            n_el = m.r * m.c
+            self.fire('eigen-head-tail')
+            return SegView(m, 0 if name == 'head' else n_el - k, k)
         if name == 'transposeInPlace':
             t = m.T()
             m.r, m.c, m.d = t.r, t.c, t.d
